@@ -289,6 +289,17 @@ def unknownIdxs : List Out → Nat → List Nat
   | [], _ => []
   | o :: rest, i => if classify o = .unknown then i :: unknownIdxs rest (i + 1) else unknownIdxs rest (i + 1)
 
+/-- what the property demands of a funded channel output -/
+def ChanOk (o : Out) (c : ChanFacts) : Prop :=
+  o.value = c.value ∧ c.scriptMatch = true ∧ c.outbound = true ∧ c.pushMsat / 1000 = 0 ∧ c.nextHolderCommit = 1
+
+/-- the output is wallet, allowlisted, or a validated channel funding output -/
+def Accepted (o : Out) : Prop :=
+  match classify o with
+  | .wallet | .xpubAllow | .scriptAllow => True
+  | .channel c => ChanOk o c
+  | _ => False
+
 /-- the tags a non-permissive filter must keep as errors for the C08 argument -/
 def Filter.Strict (f : Filter) : Prop :=
   f.nonMalleable = true ∧ f.noUnknown = true ∧ f.matchCommitment = true ∧ f.outputScript = true ∧
